@@ -186,7 +186,8 @@ pub fn get_solidity_version_from_source_unit(source_unit: SourceUnit) -> Option<
             let minor_major_patch_version =
                 get_solidity_major_minor_patch_version(&solidity_version_literal.string)
                     .iter()
-                    .map(|f| f.parse::<i32>().unwrap())
+                    //a version component that does not fit into an i32 saturates
+                    .map(|f| f.parse::<i32>().unwrap_or(i32::MAX))
                     .collect::<Vec<i32>>();
 
             return Some((
